@@ -58,7 +58,7 @@ def _rebind_table():
 from . import bufmodels as B
 
 SHADOWS = {"len": S.sym_len, "range": S.sym_range, "isinstance": S.sym_isinstance, "int": S.sym_int,
-           "bytearray": B.sym_bytearray, "memoryview": B.sym_memoryview}
+           "bytearray": B.sym_bytearray, "memoryview": B.sym_memoryview, "bytes": S.sym_bytes}
 
 
 def install(extra_modules=()):
@@ -83,6 +83,8 @@ def install(extra_modules=()):
             if k.startswith("__") and k.endswith("__"):
                 continue
             m = tab.get(id(v))
+            if m is None and isinstance(v, _struct.Struct):
+                m = M.StructObjModel(v.format)  # a precompiled format object: same model as struct.pack/unpack
             if m is None and type(v) is bytearray:
                 # a module-level scratch buffer: replace it by a model that can hold symbolic bytes
                 m = B.ByteArrayModel(bytes(v))
